@@ -1,4 +1,12 @@
 import BlackIt.Lemmas.Calibrator
+import Mathlib.Algebra.Order.Floor.Ring
+import Mathlib.Algebra.Order.Field.Basic
+import Mathlib.Algebra.Order.AbsoluteValue.Basic
+import Mathlib.Tactic.Linarith
+import Mathlib.Tactic.Ring
+import Mathlib.Tactic.Push
+import Mathlib.Tactic.NormNum
+import Mathlib.Data.Rat.Floor
 set_option linter.unusedSectionVars false
 set_option linter.unusedSimpArgs false
 set_option linter.unusedVariables false
@@ -257,3 +265,67 @@ example : (calLoop exComp 5 exState).1.core.losses = [5, 0] := by decide
 example : (calLoop exComp 5 exState).1.disk.map (·.batchIdx) = some 2 := by decide
 end Example
 end BlackIt.Calibrator
+
+
+/-! ## what "rounds to zero" means
+
+The calibrator model takes the convergence test as a parameter (`Comp.conv`); the instance the driver runs is `|x * 10^p| ≤ 0.5`.  This section shows that this
+is `round(x, p) == 0` for half-to-even rounding. -/
+namespace BlackIt.Round
+variable {K : Type} [Field K] [LinearOrder K] [IsStrictOrderedRing K] [FloorRing K]
+
+/-- round half to even, as `np.round` / Python's `round` do on the scaled value -/
+def roundHalfEven (y : K) : ℤ :=
+  if y - ⌊y⌋ < 1 / 2 then ⌊y⌋ else if 1 / 2 < y - ⌊y⌋ then ⌊y⌋ + 1 else if ⌊y⌋ % 2 = 0 then ⌊y⌋ else ⌊y⌋ + 1
+
+theorem roundHalfEven_eq_zero_iff (y : K) : roundHalfEven y = 0 ↔ |y| ≤ 1 / 2 := by
+  have hlo : ((⌊y⌋ : ℤ) : K) ≤ y := Int.floor_le y
+  have hhi : y < ((⌊y⌋ : ℤ) : K) + 1 := Int.lt_floor_add_one y
+  unfold roundHalfEven
+  constructor
+  · intro h
+    rw [abs_le]
+    split_ifs at h with h1 h2 h3
+    · rw [h] at h1 hlo; simp only [Int.cast_zero, sub_zero] at h1 hlo
+      constructor <;> linarith
+    · have hf : (⌊y⌋ : ℤ) = -1 := by omega
+      rw [hf] at h2 hhi; simp only [Int.cast_neg, Int.cast_one] at h2 hhi
+      constructor <;> linarith
+    · rw [h] at h1 h2; simp only [Int.cast_zero, sub_zero] at h1 h2
+      constructor <;> linarith
+    · have hf : (⌊y⌋ : ℤ) = -1 := by omega
+      rw [hf] at h1 h2; simp only [Int.cast_neg, Int.cast_one] at h1 h2
+      constructor <;> linarith
+  · intro h
+    rw [abs_le] at h
+    obtain ⟨ha, hb⟩ := h
+    have hf0 : (⌊y⌋ : ℤ) < 1 := by
+      have : ((⌊y⌋ : ℤ) : K) < ((1 : ℤ) : K) := by push_cast; linarith
+      exact_mod_cast this
+    have hf1 : (-2 : ℤ) < ⌊y⌋ := by
+      have : ((-2 : ℤ) : K) < ((⌊y⌋ : ℤ) : K) := by push_cast; linarith
+      exact_mod_cast this
+    have hcase : (⌊y⌋ : ℤ) = 0 ∨ (⌊y⌋ : ℤ) = -1 := by omega
+    rcases hcase with hf | hf
+    · rw [hf]; simp only [Int.cast_zero, sub_zero]
+      split_ifs with h1 h2 h3 <;> first | rfl | (exfalso; linarith) | (exfalso; omega)
+    · rw [hf]; simp only [Int.cast_neg, Int.cast_one]
+      split_ifs with h1 h2 h3 <;> first | rfl | (exfalso; linarith) | (exfalso; omega)
+
+/-- the convergence test of the model instance (`Drv/Cal.lean`: `|x * 10^p| ≤ 0.5`) is "round(x, p) == 0" with numpy's half-to-even rounding of the
+scaled value (exact arithmetic; the binary64 instance is compared with `np.round` on the real calibrator in `harness/props/c14.py`) -/
+theorem rounds_to_zero_iff (x : K) (p : ℕ) : roundHalfEven (x * 10 ^ p) = 0 ↔ |x * 10 ^ p| ≤ 1 / 2 :=
+  roundHalfEven_eq_zero_iff _
+
+/-- a best loss below `-0.5 * 10^-p` does NOT round to zero: a negative loss (a log-likelihood) never stops a calibration early. (A test
+`round(best, p) <= 0` instead of `== 0` stops there at once: wave-13 seeded change `C14-convergence-threshold-option-leq-instead-of-eq-zero`.) -/
+theorem negative_loss_does_not_round_to_zero (x : K) (p : ℕ) (h : x * 10 ^ p < -(1 / 2)) : roundHalfEven (x * 10 ^ p) ≠ 0 := by
+  intro h0
+  have := (rounds_to_zero_iff x p).mp h0
+  rw [abs_le] at this
+  linarith [this.1]
+
+example : roundHalfEven ((1 : ℚ) / 2) = 0 ∧ roundHalfEven ((3 : ℚ) / 2) = 2 ∧ roundHalfEven (-(1 : ℚ) / 2) = 0 ∧ roundHalfEven ((5 : ℚ) / 2) = 2 := by
+  refine ⟨?_, ?_, ?_, ?_⟩ <;> (unfold roundHalfEven; norm_num [Int.floor_eq_iff])
+
+end BlackIt.Round
